@@ -1,0 +1,46 @@
+//go:build verif
+
+/*
+Copyright The ORAS Authors.
+Licensed under the Apache License, Version 2.0 (the "License");
+you may not use this file except in compliance with the License.
+You may obtain a copy of the License at
+
+http://www.apache.org/licenses/LICENSE-2.0
+
+Unless required by applicable law or agreed to in writing, software
+distributed under the License is distributed on an "AS IS" BASIS,
+WITHOUT WARRANTIES OR CONDITIONS OF ANY KIND, either express or implied.
+See the License for the specific language governing permissions and
+limitations under the License.
+*/
+
+package auth
+
+import (
+	"context"
+
+	"oras.land/oras-go/v2/internal/syncutil"
+)
+
+// This file only re-exports unexported functions for the verification harness.
+// It is compiled only with the build tag "verif".
+
+// VerifParseChallenge re-exports parseChallenge.
+func VerifParseChallenge(header string) (Scheme, map[string]string) {
+	return parseChallenge(header)
+}
+
+// VerifCleanActions re-exports cleanActions (which sorts its argument in place).
+func VerifCleanActions(actions []string) []string { return cleanActions(actions) }
+
+// VerifOnce re-exports internal/syncutil.Once.
+type VerifOnce = syncutil.Once
+
+// VerifNewOnce re-exports syncutil.NewOnce.
+func VerifNewOnce() *VerifOnce { return syncutil.NewOnce() }
+
+// VerifOnceDo re-exports (*syncutil.Once).Do.
+func VerifOnceDo(o *VerifOnce, ctx context.Context, f func() (interface{}, error)) (bool, interface{}, error) {
+	return o.Do(ctx, f)
+}
